@@ -424,7 +424,7 @@ func runCheck(id, tier string) int {
 				text = f.Text
 			}
 		}
-		fmt.Printf("KNOWN-FINDING: property=%s id=%s occurrences=%d e.g. grammar=%q input=%q gen=%s :: %s\n", id, k, merged.Known[k], oneLine(s.Grammar), s.Input, s.Gen, text)
+		fmt.Printf("KNOWN-FINDING: property=%s id=%s occurrences=%d e.g. grammar=%q input=%q gen=%s opts=%s observed=%q :: %s\n", id, k, merged.Known[k], oneLine(s.Grammar), s.Input, s.Gen, s.Opts, s.Desc, text)
 	}
 	fmt.Printf("%s %s: evaluations=%d grammars=%d nontrivial=%d rejected=%d skipped=%d exhaustive=%v wall=%.1fs counters=%v\n",
 		id, tier, merged.Evaluations, merged.Grammars, merged.Nontrivial, merged.Rejected, merged.Skipped, merged.Exhaustive, wall, merged.Counters)
